@@ -6,7 +6,7 @@ DROPPING = ("filter", "take", "skip", "take_while", "skip_while", "step_by", "ma
 
 def run(ctx, rep):
     r = rep.rule("R-C13-dir", "checking a directory is checking the list of its entries: the iterator chain from read_dir to the returned Vec only "
-                              "drops unreadable entries (Err), and create_project pushes every enumerated path into the project", floor=6)
+                              "drops unreadable entries (Err), and create_project pushes every enumerated path into the project", floor=7)
     eb = ctx.prog.get("ironplcc::cli::enumerate_files")
     cb = ctx.prog.get("ironplcc::cli::create_project")
     if not eb or not cb:
@@ -113,6 +113,16 @@ def run(ctx, rep):
                         r.ok(inst, where, "the only test on a readable entry is is_file()" if filetest else "no test on a readable entry")
                     else:
                         r.finding("enumerate_files|filter_map-drops-entries", where, "the filter_map closure can return None for a readable file of the directory (a test other than is_file() decides)")
+                    # one spelling per file also for members of a directory: the entry that is kept is canonicalised (a link to a file of the
+                    # same directory must name the same file, as it does when both are given as arguments)
+                    canon_e = [c2 for c2 in clo.calls() if (c2.callee or "") == "std::fs::canonicalize"]
+                    canon_e += [c2 for cb2 in ctx.prog.bodies.values() if cb2.f["dk"] == "Closure" and cb2.f.get("parent") == b.id for c2 in cb2.calls()
+                                if (c2.callee or "") == "std::fs::canonicalize" and cb2.id != clo.id and False]
+                    if canon_e:
+                        r.ok("enumerate_files|listed entries are canonicalised", where)
+                    else:
+                        r.finding("enumerate_files|entries-not-canonical", where, "the entries of a directory are returned under their directory spelling while file arguments are canonicalised: "
+                                  "a directory holding a.st and a link b.st -> a.st loads the file twice (P0019), `check dir/a.st dir/b.st` loads it once")
                     # "the files in it": an entry that is not a file (a sub-directory) is not a source
                     if filetest:
                         r.ok("enumerate_files|only files are listed", where, "entries are kept on the true edge of is_file()")
